@@ -745,6 +745,19 @@ struct Rec {
 }
 
 fn value_checks(rec: &mut Rec, map: &Beatmap, diff: &rosu_pp::Difficulty, label: &str) {
+    // the map is in its final mode already (native, or converted beforehand): the flag of the attributes is the flag of the map
+    if let Ok(full) = guarded(|| diff.calculate(map)) {
+        rec.value_checks += 1;
+        let flag = match &full {
+            rosu_pp::any::DifficultyAttributes::Osu(_) => false,
+            rosu_pp::any::DifficultyAttributes::Taiko(a) => a.is_convert,
+            rosu_pp::any::DifficultyAttributes::Catch(a) => a.is_convert,
+            rosu_pp::any::DifficultyAttributes::Mania(a) => a.is_convert,
+        };
+        if flag != (map.is_convert && map.mode != rosu_pp::model::mode::GameMode::Osu) {
+            rec.value_mism.push(json!({"api": "count", "label": label, "what": "is_convert", "expected": map.is_convert, "observed": flag}));
+        }
+    }
     let total = GradualDifficulty::new(diff.clone(), map).len();
     if total == 0 {
         return;
